@@ -29,10 +29,11 @@ func init() {
 		}{{"0.75", 2, false, 0}, {"0.25", 1, true, 0}, {"0", 3, false, 0}, {"1", 1, false, 0}, {"0.5", 1, false, 40}} {
 			us = append(us, Search{Sc: Rewards{Fraction: f.frac, Period: f.period, Dup: f.dup, Cap: f.cap}, Depth: depth})
 		}
+		us = append(us, Search{Sc: Rewards{Fraction: "0.5", Period: 1, Prov: true}, Depth: depth})
 		return CheckSpec{Level: "model_checking", Rule: searchRule, Assumptions: append([]string{
 			"fees reach the consumer's fee collector through the bank call the ante handler makes; the reward transfer runs through the real ibc-go transfer keeper (escrow, voucher mint) and the provider's transfer middleware; packet relay and channel handshakes through the Net shim",
 			"the consumer is honest (the reward memo carries its own consumer id)",
 		}, commonAssumptions...), Budget: budget, Units: us,
-			MustSee: []string{"rewards-sent", "rewards-credited", "payout", "in-set-but-not-yet-eligible", "credit-in-disallowed-denom-kept", "due-but-channel-closed", "payout-with-nobody-eligible"}}
+			MustSee: []string{"rewards-sent", "rewards-credited", "payout", "in-set-but-not-yet-eligible", "credit-in-disallowed-denom-kept", "due-but-channel-closed", "payout-with-nobody-eligible", "two-denoms-in-one-transmission"}}
 	})
 }
